@@ -389,6 +389,11 @@ func (s *configurationStore) Watch(ctx context.Context, ch chan<- configapi.Conf
 				delete(s.watchers, id)
 			}
 			s.mu.Unlock()
+			// The event pump may already hold this watcher's channel: keep receiving so that it never blocks
+			go func() {
+				for range eventCh {
+				}
+			}()
 		}()
 
 		if options.replay {
@@ -410,9 +415,14 @@ func (s *configurationStore) Watch(ctx context.Context, ch chan<- configapi.Conf
 						log.Error(err)
 						return
 					}
-					ch <- configapi.ConfigurationEvent{
+					select {
+					case ch <- configapi.ConfigurationEvent{
 						Type:          configapi.ConfigurationEvent_REPLAYED,
 						Configuration: *configuration,
+					}:
+					case <-ctx.Done():
+						close(ch)
+						return
 					}
 				}
 			} else {
@@ -441,9 +451,14 @@ func (s *configurationStore) Watch(ctx context.Context, ch chan<- configapi.Conf
 						log.Error(err)
 						return
 					}
-					ch <- configapi.ConfigurationEvent{
+					select {
+					case ch <- configapi.ConfigurationEvent{
 						Type:          configapi.ConfigurationEvent_REPLAYED,
 						Configuration: *configuration,
+					}:
+					case <-ctx.Done():
+						close(ch)
+						return
 					}
 				}
 			}
@@ -452,13 +467,14 @@ func (s *configurationStore) Watch(ctx context.Context, ch chan<- configapi.Conf
 		for {
 			select {
 			case event := <-eventCh:
-				ch <- event
+				select {
+				case ch <- event:
+				case <-ctx.Done():
+					close(ch)
+					return
+				}
 			case <-ctx.Done():
 				close(ch)
-				go func() {
-					for range eventCh {
-					}
-				}()
 				return
 			}
 		}
